@@ -251,7 +251,8 @@ func (wh *writeHelper) updateCleanSchemaFieldsCheck(r *influx.Row, dropFieldInde
 				}
 			}
 			endTime := meta2.TimeReserveHigh32(sgEndTime)
-			if schemaVal.EndTime < endTime {
+			// a conflicting field is dropped from the row: it must not reach the update pool with its wrong type
+			if int32(schemaVal.Typ) == field.Type && schemaVal.EndTime < endTime {
 				if AsyncSchemaEndtimeUpdateEn {
 					fieldToUpdateEndTime = appendField(fieldToUpdateEndTime, field.Key, field.Type)
 					setLastFieldEndTime(endTime, fieldToUpdateEndTime)
